@@ -277,8 +277,53 @@ var c07TwoParty = probe.Define("C07", "two-party", func(t *rapid.T) c07PartyIn {
 	return probe.Outcome{NonTrivial: true, Labels: l}
 })
 
+type c07DegIn struct {
+	Suite bridge.SuiteSel `json:"suite"`
+	Peer  string          `json:"peer_value"` // "1" or "p-1"
+	Nonce model.Bytes     `json:"nonces"`
+}
+
+// NewIKESAKey with a peer value whose shared secret is known whatever exponent the library draws (1^b = 1; (p-1)^b in {1, p-1}):
+// g^ir has leading zero octets, which must be preserved when it is fed to the prf
+var c07Degenerate = probe.Define("C07", "degenerate-peer-value", func(t *rapid.T) c07DegIn { panic("enumerated") }, func(in c07DegIn) probe.Outcome {
+	s := in.Suite
+	n := ref.DHs[s.DH].Bits / 8
+	P := ref.ModpPrime(ref.DHs[s.DH].Bits)
+	peer := big.NewInt(1)
+	if in.Peer == "p-1" {
+		peer = new(big.Int).Sub(P, big.NewInt(1))
+	}
+	prop, err := newInfoSA(s).ToProposal()
+	if err != nil {
+		return probe.Fail("ToProposal: %v", err)
+	}
+	var sa *security.IKESAKey
+	if err := probe.Try(func() error { var e error; sa, _, e = security.NewIKESAKey(prop, ref.LeftPad(peer, n), append([]byte(nil), in.Nonce...), 7, 9); return e }); err != nil {
+		return probe.Fail("NewIKESAKey: %v", err)
+	}
+	var errs []string
+	for _, secret := range []*big.Int{big.NewInt(1), peer} {
+		want := ref.DeriveIKE(ref.Prfs[s.Prf], ref.Integs[s.Integ], ref.Encrs[s.Encr], in.Nonce, ref.LeftPad(secret, n), 7, 9)
+		err := checkSAKeys(sa, s, want)
+		if err == nil {
+			return probe.OK(true, "peer:"+in.Peer, "dh:"+ref.DHs[s.DH].Name)
+		}
+		errs = append(errs, err.Error())
+	}
+	return probe.Fail("responder's keys for peer value %s do not follow from the fixed-length shared secret (leading zeros preserved): %s", in.Peer, errs[0])
+})
+
 func TestC07(t *testing.T) {
 	c := probe.NewCtx(t, "C07")
+	if c.Shard == 0 {
+		for d := 0; d < 2; d++ {
+			for p := 0; p < 3; p++ {
+				for _, peer := range []string{"1", "p-1"} {
+					c07Degenerate.Eval(c, c07DegIn{Suite: bridge.SuiteSel{Encr: p, Integ: (p + 1) % 3, Prf: p, DH: d}, Peer: peer, Nonce: model.Bytes("0123456789abcdef0123456789abcdef")})
+				}
+			}
+		}
+	}
 	c07Derive.Run(c, t, c.N(2000, 20000))
 	c07TwoParty.Run(c, t, c.N(60, 600))
 }
